@@ -1,11 +1,15 @@
 """C06 - unique adds never expose duplicates; replace is atomic; each replaced node has one owner."""
 import dataclasses
-from obligations import C08 as _c08
+from obligations import C08 as _c08, C09 as _c09
 from obligations.C08 import LFHT_TRUSTED
 
 SEL = ('C08.O5.add_bucket', 'C06.O1.add_unique', 'C06.O1.add_unique_small', 'C06.O2.replace', 'C06.O2.replace_removed', 'C06.O2.replace_api', 'C08.O4.next_duplicate', 'C07.O1.del', 'C07.O1.del_twice',
        'C06.O3.cds_lfht_add', 'C06.O3.cds_lfht_add_unique', 'C06.O3.cds_lfht_add_replace', 'C06.O3.cds_lfht_del')
 OBLIGATIONS = [o for o in _c08.OBLIGATIONS if o.name in SEL]
+# resize ordering is part of uniqueness 'with concurrent resizes': a grow publishes the size only after populating, a shrink waits a
+# grace period between publishing the smaller size and unlinking the dropped buckets (else an add_unique that still uses a
+# dropped bucket as insertion point links a node nobody can find, and a second add_unique inserts a duplicate)
+OBLIGATIONS += [o for o in _c09.OBLIGATIONS if o.name in ('C09.O3.init_table', 'C09.O3.fini_table', 'C09.O5.init_table_populate_partition', 'C09.O5.remove_table_partition')]
 META = {
     'level': 'proof', 'bounded_apart': True,
     'trusted_base': LFHT_TRUSTED,
